@@ -503,7 +503,9 @@ func propC03(c *Ctx) {
 		seen := false
 		for _, p := range c.Paths(v, PO{Params: []string{"msg", "ac"}, Visits: 4}) {
 			if p.OK() && p.HasFact(len(p.Events), func(a *Term, pol bool) bool {
-				return pol && eqAtom(a, "builtin.len(msg.WithdrawalProofs[0])", "32")
+				// element 0 of the loop, or the symbolic element of a slices search
+				x := eqOther(a, "32")
+				return pol && x != nil && strings.HasPrefix(x.Key(), "builtin.len(msg.WithdrawalProofs[") && strings.HasSuffix(x.Key(), "])")
 			}) {
 				seen = true
 			}
